@@ -21,15 +21,15 @@ type Vector struct {
 }
 
 type Result struct {
-	File     string            `json:"file"`
-	Harness  string            `json:"harness"`
-	Outcome  string            `json:"outcome"` // ok | assert | panic | assume | hang | nofunc
-	Detail   string            `json:"detail"`
-	Failed   []string          `json:"failed,omitempty"`
-	Reached  []string          `json:"reached,omitempty"`
-	Observed map[string]uint64 `json:"observed,omitempty"`
-	KnownHit []string          `json:"known_hit,omitempty"`
-	PanicKnown string          `json:"panic_known,omitempty"`
+	File       string            `json:"file"`
+	Harness    string            `json:"harness"`
+	Outcome    string            `json:"outcome"` // ok | assert | panic | assume | hang | nofunc
+	Detail     string            `json:"detail"`
+	Failed     []string          `json:"failed,omitempty"`
+	Reached    []string          `json:"reached,omitempty"`
+	Observed   map[string]uint64 `json:"observed,omitempty"`
+	KnownHit   []string          `json:"known_hit,omitempty"`
+	PanicKnown string            `json:"panic_known,omitempty"`
 }
 
 type abortT struct{ why string }
@@ -102,13 +102,13 @@ func AssertKnown(c bool, id string, k bool, msg string) {
 	}
 	res.Failed = append(res.Failed, msg)
 }
-func PanicKnown(id string, k bool) { kpID, kpCond = id, k }
-func Reach(tag string)             { res.Reached = append(res.Reached, tag) }
-func Observe(n string, v uint64)   { res.Observed[n] = v }
+func PanicKnown(id string, k bool)    { kpID, kpCond = id, k }
+func Reach(tag string)                { res.Reached = append(res.Reached, tag) }
+func Observe(n string, v uint64)      { res.Observed[n] = v }
 func SetUnwind(k int, violation bool) {}
-func HavocLoop(fn string, v string) {}
-func HavocUsed(fn string) bool      { return false }
-func StubCRC(on bool) {}
+func HavocLoop(fn string, v string)   {}
+func HavocUsed(fn string) bool        { return false }
+func StubCRC(on bool)                 {}
 
 // UF32 natively: the only uninterpreted function in use is "crc", whose native meaning is CRC-32/MPEG-2.
 func UF32(n string, data []byte) uint32 {
